@@ -42,12 +42,12 @@ def run(model, res, tier):
     em, singles = error_singletons(model)
     NA = next(n for n, msg in singles.items() if msg == '#N/A')
     ctx = {'model': model, 'res': res, 'opaque': opaque, 'NA': NA}
-    _r1(ctx)
-    _r2b(ctx)
-    _r3(ctx)
-    _r4(ctx)
-    _r5(ctx)
-    _r6(ctx)
+    H.safely(res, 'R1', 'r1', _r1, ctx)
+    H.safely(res, 'R2', 'r2b', _r2b, ctx)
+    H.safely(res, 'R3', 'r3', _r3, ctx)
+    H.safely(res, 'R4', 'r4', _r4, ctx)
+    H.safely(res, 'R5', 'r5', _r5, ctx)
+    H.safely(res, 'R6', 'r6', _r6, ctx)
     names = ['AND', 'OR', 'XOR', 'NOT', 'IF', 'IFS', 'SWITCH', 'ISNUMBER', 'ISTEXT', 'ISLOGICAL', 'ISBLANK', 'ISERROR', 'ISERR',
              'ISNA', 'ISNONTEXT', 'ISEVEN', 'ISODD']
     keys = []
@@ -468,3 +468,34 @@ def _r6(ctx):
                 return o.kind == 'return' and isinstance(o.value, Sym) and o.value.name == 'r1'
             return o.kind == 'return' and isinstance(o.value, Const) and o.value.value == dv and type(o.value.value) is type(dv)
         guarded(ctx, 'R6', 'SWITCH', {'default': repr(dv)}, mk, judge, 'the falsy default itself when no case matches', key='pairing')
+    # a blank is an argument like any other: as the result paired with the last case, and as the default
+    def mk_blank_result():
+        return [Sym('int', 't'), Sym('int', 'c1'), Sym('int', 'r1'), Sym('int', 'c2'), Const(None)]
+
+    def judge_blank_result(o):
+        w = world(o)
+        if 'c1' not in w:
+            return False
+        if w['c1']:
+            return o.kind == 'return' and isinstance(o.value, Sym) and o.value.name == 'r1'
+        if 'c2' not in w:
+            return False
+        if w['c2']:
+            return o.kind == 'return' and isinstance(o.value, Const) and o.value.value is None
+        return o.kind == 'return' and isinstance(o.value, Err) and o.value.name == NA
+    guarded(ctx, 'R6', 'SWITCH', {'vector': 'two cases, the second result is blank'}, mk_blank_result, judge_blank_result,
+            'the (blank) result paired with the second case when it is the first equal one - the blank last argument is that result, '
+            'not a missing argument', key='pairing')
+
+    def mk_blank_default():
+        return [Sym('int', 't'), Sym('int', 'c1'), Sym('int', 'r1'), Const(None)]
+
+    def judge_blank_default(o):
+        w = world(o)
+        if 'c1' not in w:
+            return False
+        if w['c1']:
+            return o.kind == 'return' and isinstance(o.value, Sym) and o.value.name == 'r1'
+        return o.kind == 'return' and isinstance(o.value, Const) and o.value.value is None
+    guarded(ctx, 'R6', 'SWITCH', {'default': 'blank'}, mk_blank_default, judge_blank_default,
+            'the blank default itself when no case matches', key='pairing')
